@@ -80,7 +80,23 @@ def gen_cases(prop, u, seed, tier, probe=None):
     def case(i, r, mut, val, family, **kw):
         cs.add('case %d %d %s %s' % (i, r, mut, val), kind='case', ti=i, r=r, mut=mut, val=val, family=family, **kw)
 
-    if prop in ('C01', 'C02', 'C03'):
+    if prop == 'C03':
+        import valterm
+        for i, t in enumerate(u.types):
+            for v in values_for(t, rng, 6 if quick else 20):
+                case(i, 0, '-', v, 'roundtrip')
+                tv = valterm.parse(v)
+                group = []
+                for f in (1, 4, 16) if quick else (1, 2, 8, 64):
+                    sv = valterm.show(valterm.scale(t, tv, f))
+                    group.append(sv)
+                if len(set(group)) > 1:
+                    gid = len(cs.lines)
+                    for f, sv in zip((1, 4, 16) if quick else (1, 2, 8, 64), group):
+                        cs.add('alloc %d 0 %s' % (i, sv), kind='alloc', ti=i, val=sv, group=gid, factor=f, family='alloc-scaling')
+                else:
+                    cs.add('alloc %d 0 %s' % (i, v), kind='alloc', ti=i, val=v, group=None, factor=1, family='alloc-plain')
+    elif prop in ('C01', 'C02'):
         for i, t in enumerate(u.types):
             for v in values_for(t, rng, nvals):
                 case(i, 0, '-', v, 'roundtrip')
@@ -89,6 +105,19 @@ def gen_cases(prop, u, seed, tier, probe=None):
                 for v in values_for(t, rng, 2):
                     case(i, 64, '-', v, 'roundtrip-64')
     elif prop == 'C06':
+        import json, os
+        index = {t.rust(): i for i, t in enumerate(u.types)}
+        cpath = os.path.join(os.path.dirname(os.path.dirname(os.path.abspath(__file__))), 'corpus', 'v1', 'corpus.jsonl')
+        for line in open(cpath):
+            e = json.loads(line)
+            i = index.get(e['rust'])
+            if i is None or u.types[i].term() != e['term']:
+                cs.add('corpus-missing %s' % e['rust'].replace(' ', '_'), kind='corpus-missing', family='corpus-missing', entry=e['rust'])
+                continue
+            cs.add('case %d 0 - %s' % (i, e['val']), kind='case', ti=i, r=0, mut='-', val=e['val'], family='corpus-write',
+                   stored=e['bytes'], mask=e['mask'])
+            cs.add('fromhex %d 0 %s' % (i, e['bytes']), kind='fromhex', ti=i, val=e['val'], family='corpus-read', total=len(e['bytes']) // 2)
+            cs.add('hash %d' % i, kind='hash', ti=i, family='corpus-hash', th=e['type_hash'], ah=e['align_hash'])
         for i, t in enumerate(u.types):
             for v in values_for(t, rng, nvals):
                 case(i, 0, '-', v, 'roundtrip')
